@@ -322,7 +322,7 @@ class _Expr(SymEval):
                 return np.clip(*args, **kw)
             if f.attr == "evolve" and False:
                 pass
-            if f.attr in ("isclose", "allclose", "rint", "round", "floor"):
+            if f.attr in ("isclose", "allclose", "rint", "round", "floor", "array_equal", "array_equiv"):
                 if np.asarray(args[0]).dtype == object:
                     raise NotSymbolic(f"{f.attr} of symbolic values")
                 return getattr(np, f.attr)(*args, **kw)
@@ -331,8 +331,12 @@ class _Expr(SymEval):
             if f.attr == "concatenate":
                 seq = [np.asarray(x) if not isinstance(x, np.ndarray) else x for x in args[0]]
                 return _prog_call(np.concatenate, seq, **{k: v for k, v in kw.items() if k == "axis"})
-            if f.attr == "zeros" and args:
-                return np.zeros(args[0])
+            if f.attr in ("zeros", "empty", "ones") and args:
+                # np.empty: uninitialised memory is modelled as NaN, so that a row that is never stored shows
+                dt = kw.get("dtype", args[1] if len(args) > 1 else float)
+                if f.attr == "empty":
+                    return np.full(args[0], np.nan) if dt in (float, np.float64, np.float32, "float") else np.zeros(args[0], dtype=dt if not isinstance(dt, str) else {"int": int, "float": float}.get(dt, float))
+                return getattr(np, f.attr)(args[0], dtype=dt if not isinstance(dt, str) else {"int": int, "float": float}.get(dt, float))
             PURE_NUMERIC = ("argsort", "sort", "unique", "arange", "cumsum", "where", "sum", "max", "min", "amax", "amin", "abs", "absolute", "sqrt", "prod", "any", "all", "nonzero", "argmax", "argmin", "diff", "lexsort", "searchsorted", "count_nonzero", "sign", "floor", "ceil")
             if f.attr in PURE_NUMERIC and args and all(not isinstance(a, (Sym, Rec)) and not (isinstance(a, np.ndarray) and a.dtype == object) and not (isinstance(a, (list, tuple)) and any(isinstance(x, (Sym, Rec)) for x in a)) for a in args):
                 return _prog_call(getattr(np, f.attr), *args, **kw)
